@@ -68,6 +68,7 @@ type sock struct {
 	listening bool
 	keepalive bool
 	conn      net.Conn
+	prompt    bool
 	timeout   time.Duration
 	buffer    []byte
 }
@@ -138,6 +139,7 @@ func (s *sock) Close() error {
 }
 
 func (s *sock) close() error {
+	s.prompt = false
 	if s.conn != nil {
 		err := s.conn.Close()
 		s.conn = nil
@@ -176,6 +178,11 @@ func (s *sock) send(cmd string) (string, error) {
 			return "", fmt.Errorf("error reading response from %s: %w", s.address, err)
 		}
 		response += string(s.buffer[:r])
+		if r == 0 && s.prompt {
+			// interactive mode ends every response with the prompt, so the end of
+			// the stream means that the peer is gone and the response was lost
+			return "", fmt.Errorf("error reading response from %s: connection closed", s.address)
+		}
 		if r == 0 ||
 			strings.HasSuffix(response, "\n> ") ||
 			strings.HasSuffix(response, "master> ") ||
@@ -185,6 +192,9 @@ func (s *sock) send(cmd string) (string, error) {
 			// ps: currently master doesn't close the connection even in non interactive mode.
 			break
 		}
+	}
+	if cmd == "prompt\n" {
+		s.prompt = true
 	}
 	// remove the last line breaks and all trailing chars, that might be
 	// the cli prompt ("> ") or the master prompt ("master> ")
